@@ -54,6 +54,13 @@ func errVarOf(info *types.Info, e ast.Expr) types.Object {
 	switch x := ast.Unparen(e).(type) {
 	case *ast.Ident:
 		return objOf(info, x)
+	case *ast.StarExpr:
+		// *err of a decorator's pointer parameter (func annotate(err *error, op string)): the parameter stands for it
+		if o := objOf(info, x.X); o != nil {
+			if pt, ok := o.Type().Underlying().(*types.Pointer); ok && isErrorType(pt.Elem()) {
+				return o
+			}
+		}
 	case *ast.SelectorExpr:
 		if sel := info.Selections[x]; sel != nil && sel.Kind() == types.FieldVal && isErrorType(sel.Obj().Type()) {
 			return sel.Obj()
@@ -539,7 +546,7 @@ func (f *Flat) CallSites(keys ...string) []callSite {
 			continue
 		}
 		for _, c := range callsIn(n.Ast, false) {
-			if f.P.callIs(f.Pkg, c, keys...) {
+			if f.callIs(c, keys...) {
 				res = append(res, f.bindOf(n, c))
 			}
 		}
